@@ -85,6 +85,7 @@ type Unit struct {
 	locks      []lockLoc
 	rangeStack []Term
 	sentinels  map[string]Term
+	lockSnaps  map[string]*State
 }
 
 type closure struct {
@@ -177,7 +178,7 @@ func (u *Unit) cover(st *State, name string, props []string, pos token.Pos) {
 func newUnit(e *Engine, name string, pkg *packages.Package) *Unit {
 	return &Unit{eng: e, name: name, pkg: pkg, d: NewDecls(), strLits: map[string]Term{}, closures: map[string]*closure{},
 		abstractions: map[string]bool{}, assumptions: map[string]bool{}, stubsUsed: map[string]bool{}, checks: map[string]bool{},
-		nObl: map[string]int{}, ghostLocals: map[string]types.Type{}, entryNames: map[string]Value{}, quantVars: map[string]Value{}, sentinels: map[string]Term{}}
+		nObl: map[string]int{}, ghostLocals: map[string]types.Type{}, entryNames: map[string]Value{}, quantVars: map[string]Value{}, sentinels: map[string]Term{}, lockSnaps: map[string]*State{}}
 }
 
 func defaultChecks(fc *FuncContract) map[string]bool {
